@@ -94,6 +94,10 @@ type FnExec struct {
 	resultTerms []Term
 	entryPos    int // script position right after the parameters were declared
 	objFrame    *objFrame
+	inlineDepth  int            // nesting depth of in-place execution of contract-less helpers
+	inlineParent *FnExec        // the execution this one is inlined into
+	inlineAt     token.Pos      // position of the call that was inlined (in the parent)
+	inlined      map[string]int // helpers executed in place (by key)
 }
 
 func (g *Gen) NewFnExec(fn *ssa.Function, c *Contract) *FnExec {
@@ -103,7 +107,7 @@ func (g *Gen) NewFnExec(fn *ssa.Function, c *Contract) *FnExec {
 		closures: map[ssa.Value]*ssa.MakeClosure{}, cellIDs: map[*ssa.Alloc]int{}, nonNil: map[string]bool{},
 		params: map[string]SpecVal{}, counters: map[string]int{}, loops: map[*ssa.BasicBlock]*loopInfo{},
 		edges: map[[2]int][]edgeIn{}, phiConds: map[*ssa.BasicBlock][]Term{}, opaque: map[string]int{},
-		assumed: map[string]bool{}, usedCtr: map[string]bool{}}
+		assumed: map[string]bool{}, usedCtr: map[string]bool{}, inlined: map[string]int{}}
 	if c != nil {
 		fx.nopanic = c.NoPanic
 	}
@@ -367,6 +371,13 @@ func (fx *FnExec) Run() (err error) {
 		}
 	}
 	fx.setupObjFrame()
+	fx.runBlocks(st)
+	fx.finish()
+	return nil
+}
+
+// runBlocks executes the body of fx.fn from state st (block 0), merging states at joins and cutting loops.
+func (fx *FnExec) runBlocks(st *State) {
 	fx.findLoops()
 	order := fx.rpo()
 	for _, b := range order {
@@ -413,8 +424,6 @@ func (fx *FnExec) Run() (err error) {
 			fx.backEdge(m, m.R, li)
 		}
 	}
-	fx.finish()
-	return nil
 }
 
 func (fx *FnExec) isBackEdge(from, to *ssa.BasicBlock) bool {
